@@ -120,3 +120,75 @@ Definition pchk (pc : pcase) : bool :=
   | Some p => Nat.eqb (p_received p) r && Nat.eqb (p_enqueued p) e && Nat.eqb (p_dropped p) d &&
               Nat.eqb (p_buf p) b && Nat.eqb (busy_count nw p) t
   end.
+
+(* ---------------- compact case encoding ----------------
+   A recorded schedule is shipped as one byte string (Coq elaborates a string literal much faster
+   than a nested tuple); every field is one byte.  The decoder is checked against a structured
+   literal in Examples.v.
+
+   case   := split share nthreads thread* nkeys nsteps step* dup err blocked adds active shares
+   thread := 0 key covert tr_ok detector npol ph_blocked^npol cov_ok^npol needs live   (worker)
+           | 1 n | 2 key | 3 p                                         (sweeper, handler, reload)
+   step   := 0 t choice point snap^nkeys nev ev^nev  |  1 key ageidx point snap^nkeys nev ev^nev
+   snap   := obj+1 (0 = untracked)  flags (1 valid, 2 resolved, 4 timeout, 8 used)  regcount
+   ev     := kind key obj resolved *)
+
+Definition bN := list N.
+Definition dec (A : Type) := bN -> option (A * bN).
+
+Definition d_nat : dec nat := fun l => match l with x :: r => Some (N.to_nat x, r) | [] => None end.
+Definition d_bool : dec bool := fun l => match l with x :: r => Some (negb (x =? 0)%N, r) | [] => None end.
+Definition d_bind {A B} (f : dec A) (g : A -> dec B) : dec B :=
+  fun l => match f l with Some (a, r) => g a r | None => None end.
+Definition d_ret {A} (a : A) : dec A := fun l => Some (a, l).
+Notation "x <- f ;; g" := (d_bind f (fun x => g)) (at level 61, f at next level, right associativity).
+
+Fixpoint d_rep {A} (n : nat) (f : dec A) : dec (list A) :=
+  match n with
+  | O => d_ret []
+  | S k => x <- f ;; r <- d_rep k f ;; d_ret (x :: r)
+  end.
+
+Definition AGE_TABLE : list N := [299000000000; 660000000000; 25200000000000]%N.
+
+Definition d_thread : dec thread :=
+  kind <- d_nat ;;
+  match kind with
+  | 0 => k <- d_nat ;; cv <- d_nat ;; tr <- d_bool ;; det <- d_bool ;; np <- d_nat ;;
+         pb <- d_rep np d_bool ;; co <- d_rep np d_bool ;; needs <- d_bool ;; live <- d_bool ;;
+         d_ret (TWorker (mkMsg k cv tr det pb co needs live) W0)
+  | 1 => n <- d_nat ;; d_ret (TSweeper (S0 n))
+  | 2 => k <- d_nat ;; d_ret (THandler k H0)
+  | _ => p <- d_nat ;; d_ret (TReload p false)
+  end.
+
+Definition d_snap : dec snapT :=
+  o <- d_nat ;; f <- d_nat ;; n <- d_nat ;;
+  d_ret (match o with 0 => None | S o' => Some o' end,
+         Nat.testbit f 0, n, Nat.testbit f 1, Nat.testbit f 2, Nat.testbit f 3).
+
+Definition d_vis : dec vis :=
+  kind <- d_nat ;; k <- d_nat ;; o <- d_nat ;; r <- d_bool ;; d_ret (kind, k, o, r).
+
+Definition d_step (nkeys : nat) : dec ostep :=
+  ak <- d_nat ;; a <- d_nat ;; b <- d_nat ;; pt <- d_nat ;;
+  snaps <- d_rep nkeys d_snap ;; nev <- d_nat ;; evs <- d_rep nev d_vis ;;
+  d_ret (match ak with 0 => Run a b | _ => Age a (nth b AGE_TABLE 0%N) end, pt, snaps, evs).
+
+Definition d_case : dec ocase :=
+  split <- d_bool ;; share <- d_bool ;; nt <- d_nat ;; ths <- d_rep nt d_thread ;;
+  nk <- d_nat ;; ns <- d_nat ;; steps <- d_rep ns (d_step nk) ;;
+  du <- d_nat ;; er <- d_nat ;; bl <- d_nat ;; ad <- d_nat ;; ac <- d_nat ;; sh <- d_nat ;;
+  d_ret (split, share, ths, seq 0 nk, steps, (du, er, bl, ad, Z.of_nat ac), sh).
+
+Definition dec_case (b : bytes) : option ocase :=
+  match d_case b with Some (oc, []) => Some oc | _ => None end.
+
+Definition chkb (b : bytes) : bool :=
+  match dec_case b with Some oc => chk oc | None => false end.
+
+Definition first_badb (b : bytes) : option nat :=
+  match dec_case b with
+  | Some (split, share, ths, ks, steps, _, _) => first_bad split share ks (init ths) steps 0
+  | None => Some 999
+  end.
